@@ -457,7 +457,7 @@ static int sch_mklhs(sess_t *s) {
 		case 2: {
 			/* evaluator: coefficients from the plan; mu_j b[6 + j], combined signature g1[4], combined message b[10] */
 			dig_t f[3][3];
-			for (int j = 0; j < 3; j++) { for (int l = 0; l < 3; l++) { f[j][l] = (dig_t)(1 + ((s->opt[7] >> ((3 * j + l) % 16)) & 15)); } }
+			for (int j = 0; j < 3; j++) { for (int l = 0; l < 3; l++) { f[j][l] = (dig_t)(1 + ((s->opt[7] >> ((3 * j + l) % 16)) & 15)) | ((s->opt[6] & 1) ? ((dig_t)3 << (RLC_DIG - 2)) : 0); } }
 			g1_set_infty(s->g1[4]);
 			bn_zero(s->b[10]);
 			for (int j = 0; j < ns; j++) {
@@ -490,7 +490,7 @@ static int sch_mklhs(sess_t *s) {
 				const dig_t *fp[3] = { f[0], f[1], f[2] };
 				size_t flen[3] = { (size_t)nl, (size_t)nl, (size_t)nl };
 				g1_t h[3];
-				for (int j = 0; j < 3; j++) { for (int l = 0; l < 3; l++) { f[j][l] = (dig_t)(1 + ((s->opt[7] >> ((3 * j + l) % 16)) & 15)); } }
+				for (int j = 0; j < 3; j++) { for (int l = 0; l < 3; l++) { f[j][l] = (dig_t)(1 + ((s->opt[7] >> ((3 * j + l) % 16)) & 15)) | ((s->opt[6] & 1) ? ((dig_t)3 << (RLC_DIG - 2)) : 0); } }
 				int v1 = cp_mklhs_ver(s->g1[6], s->b[12], (const bn_t *)(s->b + 13), data, id, tags, fp, flen, (const g2_t *)(s->g2 + 5), (size_t)ns) == 1;
 				log_ver(s, "ver", v1);
 				/* offline/online verification must agree with plain verification */
